@@ -282,8 +282,8 @@ def plan(tier, seed):
 
 def gates(acc, tier):
     g = []
-    if acc['ctr']['fn_values'] == 0:
-        g.append('relocate_hi/relocate_lo were never evaluated (function boundary not reachable)')
+    if acc['ctr']['fn_values'] == 0 and sum(acc['ctr']['pair:' + k] for k in ('lui_addi', 'lui_lw', 'lui_sw', 'auipc_addi', 'auipc_jalr')) < 2000:
+        g.append('relocate_hi/relocate_lo are not reachable and too few %hi/%lo pairs were executed at program level')
     for k in ('lui_addi', 'lui_lw', 'lui_sw', 'auipc_addi', 'auipc_jalr'):
         if acc['ctr']['pair:' + k] == 0:
             g.append('no executed %s pair' % k)
